@@ -144,6 +144,34 @@ func VarForeign(name string, bound, gapLo, gapHi int64) *Term {
 	return t
 }
 
+// VarBGap: array variable whose pointer contents are older than bound and never of a family in gapLo..gapHi
+func VarBGap(name string, s *Sort, bound, gapLo, gapHi int64) *Term {
+	t := VarB(name, s, bound)
+	if gapLo <= gapHi && gapLo > 0 {
+		t.GapLo, t.GapHi = gapLo, gapHi
+	}
+	return t
+}
+
+// contentExcludes: no pointer stored in array term a has family k (syntactic)
+func contentExcludes(a *Term, k int64) bool {
+	switch a.Op {
+	case "var":
+		if a.S.Name == "Array" && !(a.GapLo == 0 && a.GapHi == 0) && a.GapLo <= k && k <= a.GapHi {
+			return true
+		}
+		return a.Bound != 0 && k >= a.Bound
+	case "havocabove", "havocfam", "ite":
+		return contentExcludes(a.Args[len(a.Args)-2], k) && contentExcludes(a.Args[len(a.Args)-1], k)
+	case "store":
+		if a.Args[2].S != SRef {
+			return contentExcludes(a.Args[0], k)
+		}
+		return contentExcludes(a.Args[0], k) && excludesFamily(a.Args[2], k)
+	}
+	return false
+}
+
 // excludesFamily: rootid(t) is syntactically known to differ from k
 func excludesFamily(t *Term, k int64) bool {
 	switch t.Op {
@@ -155,6 +183,10 @@ func excludesFamily(t *Term, k int64) bool {
 		return excludesFamily(t.Args[1], k) && excludesFamily(t.Args[2], k)
 	case "var":
 		if t.GapLo <= k && k <= t.GapHi && !(t.GapLo == 0 && t.GapHi == 0) {
+			return true
+		}
+	case "select":
+		if k != 0 && contentExcludes(t.Args[0], k) {
 			return true
 		}
 	}
@@ -291,7 +323,143 @@ func Or(as ...*Term) *Term {
 	if len(out) == 1 {
 		return out[0]
 	}
+	// complementary alternatives: (X && d) || (X && !d) -> X, and absorption X || (X && y) -> X
+	if len(out) <= 24 {
+		for changed := true; changed && len(out) > 1; {
+			changed = false
+		pairs:
+			for i := 0; i < len(out); i++ {
+				for j := 0; j < len(out); j++ {
+					if i == j {
+						continue
+					}
+					ci, cj := orConj(out[i]), orConj(out[j])
+					// absorption: every conjunct of out[i] occurs in out[j]  =>  out[j] is redundant
+					if len(ci) <= len(cj) && subsetOf(ci, cj) {
+						out = append(out[:j], out[j+1:]...)
+						changed = true
+						break pairs
+					}
+					if len(ci) == len(cj) && i < j {
+						if m := mergeComplement(ci, cj); m != nil {
+							out[i] = m
+							out = append(out[:j], out[j+1:]...)
+							changed = true
+							break pairs
+						}
+					}
+				}
+			}
+		}
+		if len(out) == 1 {
+			return out[0]
+		}
+	}
+	// factor conjuncts common to all alternatives: (P && a) || (P && b)  ->  P && (a || b).
+	// Path conditions of merged states are of this shape; factoring keeps what holds on every path a top-level conjunct.
+	conj := func(t *Term) []*Term {
+		if t.Op == "and" {
+			return t.Args
+		}
+		return []*Term{t}
+	}
+	common := map[int]*Term{}
+	for _, c := range conj(out[0]) {
+		common[c.id] = c
+	}
+	for _, a := range out[1:] {
+		here := map[int]bool{}
+		for _, c := range conj(a) {
+			here[c.id] = true
+		}
+		for id := range common {
+			if !here[id] {
+				delete(common, id)
+			}
+		}
+		if len(common) == 0 {
+			break
+		}
+	}
+	if len(common) > 0 {
+		var cs []*Term
+		for _, c := range conj(out[0]) { // keep the order of the first alternative
+			if _, ok := common[c.id]; ok {
+				cs = append(cs, c)
+			}
+		}
+		var rests []*Term
+		for _, a := range out {
+			var r []*Term
+			for _, c := range conj(a) {
+				if _, ok := common[c.id]; !ok {
+					r = append(r, c)
+				}
+			}
+			rests = append(rests, And(r...))
+		}
+		return And(append(cs, Or(rests...))...)
+	}
 	return mk("or", "", 0, SBool, out...)
+}
+
+func orConj(t *Term) []*Term {
+	if t.Op == "and" {
+		return t.Args
+	}
+	return []*Term{t}
+}
+
+func subsetOf(a, b []*Term) bool {
+	in := map[int]bool{}
+	for _, x := range b {
+		in[x.id] = true
+	}
+	for _, x := range a {
+		if !in[x.id] {
+			return false
+		}
+	}
+	return true
+}
+
+// mergeComplement: the conjunction shared by a and b when they differ in exactly one conjunct and those two are negations
+func mergeComplement(a, b []*Term) *Term {
+	inB := map[int]bool{}
+	for _, x := range b {
+		inB[x.id] = true
+	}
+	inA := map[int]bool{}
+	for _, x := range a {
+		inA[x.id] = true
+	}
+	var da, db *Term
+	for _, x := range a {
+		if !inB[x.id] {
+			if da != nil {
+				return nil
+			}
+			da = x
+		}
+	}
+	for _, x := range b {
+		if !inA[x.id] {
+			if db != nil {
+				return nil
+			}
+			db = x
+		}
+	}
+	if da == nil || db == nil || Not(da) != db {
+		return nil
+	}
+	var rest []*Term
+	for _, x := range a {
+		if x != da {
+			rest = append(rest, x)
+		}
+	}
+	return And(rest...)
 }
 
 func Implies(a, b *Term) *Term {
@@ -705,9 +873,14 @@ func liftIte(i *Term) *Term {
 }
 
 func selectRaw(a, i *Term) *Term {
-	if liftMode && a.Op != "var" && i.S == SRef {
+	if i.S == SRef {
 		// case distinctions in the address are resolved per case, so that each case can be decided syntactically
-		if j := liftIte(i); j.Op == "ite" && iteLeaves(j, 200) <= 200 {
+		// (while code is executed only small ones: large ones arise from merged paths and would multiply the terms)
+		lim := 3
+		if liftMode {
+			lim = 200
+		}
+		if j := liftIte(i); j.Op == "ite" && iteLeaves(j, lim) <= lim && (liftMode || a.Op != "var" || true) {
 			return Ite(j.Args[0], Select(a, j.Args[1]), Select(a, j.Args[2]))
 		}
 	}
@@ -1146,6 +1319,9 @@ func (p *printer) expr(t *Term) string {
 		if t.Bound != 0 && t.S.Name == "Array" && t.S.Val == SRef && !p.ground {
 			p.usesRootID = true
 			decl += fmt.Sprintf("\n(assert (forall ((r!q Ref)) (! (< (rootid (select %s r!q)) %d) :pattern ((select %s r!q)))))", sym, t.Bound, sym)
+			if !(t.GapLo == 0 && t.GapHi == 0) {
+				decl += fmt.Sprintf("\n(assert (forall ((r!q Ref)) (! (or (< (rootid (select %s r!q)) %d) (> (rootid (select %s r!q)) %d)) :pattern ((select %s r!q)))))", sym, t.GapLo, sym, t.GapHi, sym)
+			}
 		}
 		p.declare(sym, decl)
 		return sym
